@@ -911,3 +911,30 @@ func ManyMembers(r *R, k int, coord func(*R) float64) geom.Geom {
 		return m
 	}
 }
+
+// CloseWithOtherZero makes, with probability prob, the last vertex of p equal to the first one
+// numerically but not bit for bit: a zero ordinate with the opposite sign (a closing vertex that
+// was computed rather than copied). Paths of fewer than two vertices are left alone.
+func CloseWithOtherZero(r *R, p []geom.Point, prob float64) bool {
+	if len(p) < 2 || !r.Chance(prob) {
+		return false
+	}
+	f := p[0]
+	if r.Bool() {
+		f.X = math.Copysign(0, float64(1-2*r.Intn(2)))
+	} else {
+		f.Y = math.Copysign(0, float64(1-2*r.Intn(2)))
+	}
+	if r.Chance(0.3) {
+		f.X, f.Y = math.Copysign(0, float64(1-2*r.Intn(2))), math.Copysign(0, float64(1-2*r.Intn(2)))
+	}
+	l := f
+	if f.X == 0 {
+		l.X = -f.X
+	}
+	if f.Y == 0 && (f.X != 0 || r.Bool()) {
+		l.Y = -f.Y
+	}
+	p[0], p[len(p)-1] = f, l
+	return true
+}
